@@ -26,6 +26,16 @@ Theorem C11_reregister_replaces : forall p modes ops r,
 Proof. exact ob_no_duplicates. Qed.
 Print Assumptions C11_reregister_replaces.
 
+(* while a notification is held back the pending flags persist (dirty subscription =>
+   partiallydirty resource => observe_pending), so the next coap_check_notify looks at it again *)
+Theorem C11_pending_flags_persist : forall p modes ops st,
+  st = fst (ob_run p (ob_init modes) ops) ->
+  (forall r x, In r (st_res st) -> In x (rs_subs r) -> sb_dirty x = true -> rs_pdirty r = true) /\
+  (forall r, In r (st_res st) -> rs_dirty r = true \/ rs_pdirty r = true -> st_pending st = true) /\
+  (forall r, In r (st_res st) -> 0 <= rs_obs r < 16777216).
+Proof. exact ob_pending_flags_persist. Qed.
+Print Assumptions C11_pending_flags_persist.
+
 (* for every op sequence (clients, application, network, NSTART accounting and initial counters
    all arbitrary) the history of the model passes the acceptor *)
 Theorem C11_model_accepted : forall p modes ops,
